@@ -234,6 +234,19 @@ example :
       ⟨[[.hdr true, .list [⟨0, false, true⟩, ⟨1, false, true⟩]]], [], [(1, ⟨0, false, false⟩)]⟩ 10).1 := by
   decide +kernel
 
+/-- the first-features-list flag matters: the same empty list read with the flag lost (what the
+negotiator did with a tee before the fix) makes the session ready in clear text -/
+example :
+    (loop cfg1 10 false { init ⟨0, none⟩ 0 ⟨[[.hdr true, .list []]], [], []⟩ with first := false }).2
+      = .done 4 false false := by
+  decide +kernel
+
+/-- … and with the flag in place the client asks for TLS and, the peer being silent, fails -/
+example :
+    (loop cfg1 10 false (init ⟨0, none⟩ 0 ⟨[[.hdr true, .list []]], [], [(0, ⟨0, false, false⟩)]⟩)).2
+      = .stop (.err .read) := by
+  decide +kernel
+
 /-- optional STARTTLS refused: an error, never a clear-text session -/
 example :
     (run cfg1 ⟨0, none⟩ 0 ⟨[[.hdr true, .list [⟨0, false, true⟩]], [.failure]], [], [(0, ⟨0, false, false⟩)]⟩ 10).2
